@@ -39,7 +39,54 @@ func predsSx(d *topology.TopologyHWcTypeDef) (r Sx) {
 func tdSx(d *topology.TopologyHWcTypeDef) Sx { return toSx(reflect.ValueOf(d).Elem()) }
 
 // runQueries runs the look-ups on t and emits one case.
+// a definition's life before it reaches the topology: the application built it, asked it things while it still
+// had ANOTHER input kind / display, corrected it, and stored it (seed C13-16: the predicates' classification
+// memoised in the definition object - it travels with every copy).  Every predicate is asked of a scratch copy
+// with other contents; the copy, with the real contents restored, is what goes into the index / override.
+var c13pokes int
+
+func pokeDef(d *topology.TopologyHWcTypeDef) {
+	saveIn, saveOut, saveExt, saveDisp, saveSub := d.In, d.Out, d.Ext, d.Disp, d.Sub
+	for _, in := range []string{"av,b", "b4", "pi", "iv", ""} {
+		if in == saveIn {
+			continue
+		}
+		d.In, d.Out, d.Ext = in, "rgb", "steps"
+		d.Disp = &topology.TopologyHWcTypeDef_Display{W: 64, H: 32}
+		func() {
+			defer func() { recover() }()
+			d.IsButton()
+			d.IsBinary()
+			d.IsPulsed()
+			d.IsAbsolute()
+			d.IsIntensity()
+			d.GetInputType()
+			d.HasDisplay()
+			d.HasLED()
+			d.IsMotorized()
+		}()
+		break
+	}
+	d.In, d.Out, d.Ext, d.Disp, d.Sub = saveIn, saveOut, saveExt, saveDisp, saveSub
+}
+
+func pokeTopology(t *topology.Topology) {
+	for k, d := range t.TypeIndex {
+		pokeDef(&d)
+		t.TypeIndex[k] = d
+	}
+	for i := range t.HWc {
+		if t.HWc[i].TypeOverride != nil {
+			pokeDef(t.HWc[i].TypeOverride)
+		}
+	}
+}
+
 func runQueries(t *topology.Topology, qs []qspec) {
+	c13pokes++
+	if c13pokes%3 == 0 {
+		pokeTopology(t)
+	}
 	topoSx := toSx(reflect.ValueOf(t).Elem())
 	jsonB, fpB := t.ToJSON(), fingerprint(t)
 	mut := func() int {
@@ -114,6 +161,7 @@ func runQueries(t *topology.Topology, qs []qspec) {
 
 func replayC13(line string) {
 	silenceStdout()
+	c13pokes = 2 // a replayed case always gets the (semantics-preserving) pre-life of its definitions
 	n := parseSexp(line)
 	if n == nil || !n.IsList || len(n.Kids) < 3 {
 		return
